@@ -262,6 +262,12 @@ impl<'a, T: DictionaryAccess> Morpheme<'a, T> {
 //@end
 }
 
+/// R8: `v.extend_from_slice(&w[a..b])` (ASSUMED std contract; ResultNode: Clone)
+#[verifier::external_body]
+fn vec_extend_range(v: &mut Vec<ResultNode>, w: &Vec<ResultNode>, a: usize, b: usize)
+    requires a <= b <= w@.len()
+    ensures final(v)@ == old(v)@ + w@.subrange(a as int, b as int)
+{ v.extend_from_slice(&w[a..b]); }
 // ---- the iterator over a result list and MorphemeList::get / len / iter (analysis/mlist.rs)
 //@extract sudachi/src/analysis/mlist.rs :: struct MorphemeIter
 //@end
@@ -270,6 +276,37 @@ impl<T: DictionaryAccess> MorphemeList<T> {
 //@  ret r
 //@  spec
         ensures r == self.nodes.data@.len()
+//@end
+//@extract sudachi/src/analysis/mlist.rs :: impl<T: DictionaryAccess> MorphemeList<T> :: fn is_empty
+//@  ret r
+//@  spec
+        ensures r == (self.nodes.data@.len() == 0)
+//@end
+//@extract sudachi/src/analysis/mlist.rs :: impl<T: DictionaryAccess> MorphemeList<T> :: fn clear
+//@  spec
+        // C10: a cleared list holds no morpheme of an earlier analysis; its text and dictionary are untouched
+        ensures final(self).nodes.data@.len() == 0, final(self).input == old(self).input, final(self).dict == old(self).dict
+//@end
+//@extract sudachi/src/analysis/mlist.rs :: impl<T: DictionaryAccess> MorphemeList<T> :: fn copy_slice
+//@  rw R8 * custom
+//@  | out_data\.extend_from_slice\(&self\.nodes\.data\[([^;]+?)\.\.([^;]+)\]\);
+//@  > vec_extend_range(out_data, &self.nodes.data, \1, \2);
+//@  spec
+        requires start <= end <= self.nodes.data@.len()
+        ensures
+            // exactly the morphemes start..end are appended, in order (Python: split with add_single)
+            final(out).nodes.data@ == old(out).nodes.data@ + self.nodes.data@.subrange(start as int, end as int),
+            final(out).input == old(out).input, final(out).dict == old(out).dict,
+//@end
+//@extract sudachi/src/analysis/mlist.rs :: impl<T: DictionaryAccess> MorphemeList<T> :: fn get_internal_cost
+//@  ret r
+//@  spec
+        requires
+            // cumulative path costs stay far inside i32 (C02 / known finding F10)
+            forall|k: int| 0 <= k < self.nodes.data@.len() ==> -0x3fff_ffff <= (#[trigger] self.nodes.data@[k]).total_cost <= 0x3fff_ffff,
+        ensures
+            self.nodes.data@.len() == 0 ==> r == 0,
+            self.nodes.data@.len() > 0 ==> r == self.nodes.data@.last().total_cost - self.nodes.data@[0].total_cost,
 //@end
 //@extract sudachi/src/analysis/mlist.rs :: impl<T: DictionaryAccess> MorphemeList<T> :: fn get
 //@  ret r
